@@ -35,7 +35,9 @@ pub struct ExecOut {
   pub result: RunResult,
 }
 
-pub const STEP_BUDGET: u64 = 100_000;
+/// Far above anything legitimate (the largest operation observed makes about 350 steps; a week
+/// stepped by a few thousand makes some 10^4), far below what an endless loop reaches in a second.
+pub const STEP_BUDGET: u64 = 1_000_000;
 
 fn clip(s: &str, keep_text: bool) -> String {
   if keep_text {
